@@ -4,8 +4,12 @@ import re
 from . import simlib
 
 
+# DTLS sessions of harness/msg.c: the record layer is the identity (the entry points into the TLS library are replaced)
+MSG_WRAPS = ["coap_dtls_send", "coap_dtls_receive", "coap_dtls_free_session", "coap_dtls_get_timeout"]
+
+
 def harness(ctx):
-    return simlib.build_sim_harness("msg")
+    return simlib.build_sim_harness("msg", extra_wraps=MSG_WRAPS)
 
 
 # ------------------------------------------------------------------ generation helpers
@@ -21,8 +25,9 @@ def py_calc_timeout(at_i, at_f, arf_i, arf_f, r):
 PARAM_SETS = [(2, 0, 1, 500, 4), (1, 0, 1, 0, 2), (3, 250, 2, 0, 3), (2, 0, 1, 500, 1), (5, 999, 1, 1, 6)]
 
 
-def sess_word(p, nstart):
-    return "%d.%d.%d.%d.%d.%d" % (p[0], p[1], p[2], p[3], p[4], nstart)
+def sess_word(p, nstart, proto=1):
+    """proto 2: a DTLS session (harness/msg.c: proto == COAP_PROTO_DTLS, identity record layer); 1 / absent: UDP"""
+    return "%d.%d.%d.%d.%d.%d" % (p[0], p[1], p[2], p[3], p[4], nstart) + (".2" if proto == 2 else "")
 
 
 def rand_params(rng, big=False):
@@ -156,7 +161,7 @@ def oracle_c06(line, itoks):
                 # the scripted peer: the k-th datagram handed to the socket meets the k-th fate
                 fate = fates[nfate] if nfate < len(fates) else "d"
                 nfate += 1
-                if fate[0] in "aArR" and not (fate[0] in "aA" and kind != "C") and not t.startswith("txf@"):
+                if fate[0] in "aArRpP" and not (fate[0] in "aApP" and kind != "C") and not t.startswith("txf@"):
                     for d in fate[1:].split("+"):
                         arrivals[(s, mid)] = True
                         last_arrival = max(last_arrival, tm + int(d))
@@ -233,7 +238,7 @@ def c06_end_of_run(sess, evs, steps, accepted, arrivals, last_arrival, subs, txs
             tok[(int(f[1]), int(f[3]))] = int(f[5])
     for x in evs:
         f = x.split(":")
-        if f[0] in ("a", "r", "b"):
+        if f[0] in ("a", "r", "b", "p"):
             arrivals[(int(f[1]), int(f[2]))] = True
         elif f[0] == "o":
             for (s, mid), tk in tok.items():
@@ -284,8 +289,12 @@ def oracle_c08(line, itoks):
     order = {s: [] for s in range(len(sess))}       # accepted CON submissions, in order
     first_tx = {s: [] for s in range(len(sess))}
     seen_tx = set()
+    hist = InFlightLedger(sess, fates, evs)
     for ev, ts, (ca, dq, q) in steps:
         f = ev.split(":")
+        why = hist.event(ev, ts)
+        if why:
+            return why
         for s in range(len(sess)):
             infl = sum(1 for n in q if n[0] == s)
             if s < len(ca) and ca[s] != infl:
@@ -341,6 +350,82 @@ def oracle_c08(line, itoks):
     return None
 
 
+class InFlightLedger:
+    """"In flight" as the property defines it - SENT and neither ACKNOWLEDGED, RESET nor GIVEN UP - kept from the trace of
+    I alone, without looking at the library's queues: a Confirmable is in flight from its first transmission until
+      * an ACK (empty, piggy-backed response, invalid code) or a RST carrying ITS message id has been delivered,
+      * a separate response (CON/NON) carrying ITS token has been delivered (RFC 7252 5.2.2: the peer has the request),
+      * the library reports it to the NACK handler (TOO_MANY_RETRIES, RST, BAD_RESPONSE, NOT_DELIVERABLE), or
+      * its session fails.
+    An ACK for ANOTHER message id concludes nothing - whatever token it carries.  The ledger errs on the side of silence:
+    a reply of the scripted peer counts from the moment it MAY have been delivered (arrival time <= now), a response
+    concludes every message with its token transmitted up to and including the event it arrives in, message ids used twice
+    and sessions that are taken out of ESTABLISHED by `h:` (a retransmission then goes back to the delay queue) are not
+    judged, nor are lines with failing socket writes."""
+
+    def __init__(self, sess, fates, evs):
+        self.sess, self.fates = sess, fates
+        self.on = not any(f and f[0] == "x" for f in fates)
+        self.skip = {int(e.split(":")[1]) for e in evs if e.startswith("h:")}
+        self.subs, self.tok = {}, {}
+        for e in evs:
+            f = e.split(":")
+            if f[0] in ("s", "S"):
+                k = (int(f[1]), int(f[3]))
+                self.subs[k] = self.subs.get(k, 0) + 1
+                self.tok[k] = int(f[5]) if f[0] == "S" else int(f[3])
+        self.open = {s: {} for s in range(len(sess))}
+        self.ever, self.pend, self.nfate, self.now = set(), [], 0, 0
+
+    def event(self, ev, ts):
+        if not self.on:
+            return None
+        f = ev.split(":")
+        for t in ts:
+            m = TX.match(t) or TXF.match(t)
+            if m:
+                tm, s, kind, mid = int(m.group(1)), int(m.group(2)), m.group(3), int(m.group(4))
+                self.now = max(self.now, tm)
+                fate = self.fates[self.nfate] if self.nfate < len(self.fates) else "d"
+                self.nfate += 1
+                if t.startswith("txf@"):
+                    continue
+                if fate[0] in "aArRpP" and not (fate[0] in "aApP" and kind != "C"):
+                    for d in fate[1:].split("+"):
+                        self.pend.append((tm + int(d), s, mid))
+                if kind == "C" and (s, mid) not in self.ever and self.subs.get((s, mid), 0) <= 1 and s in self.open:
+                    self.ever.add((s, mid))
+                    self.open[s][mid] = tm
+                continue
+            m = W.match(t) or RSP.match(t)
+            if m:
+                self.now = max(self.now, int(m.group(1)))
+                continue
+            m = NACK.match(t)
+            if m:
+                self.now = max(self.now, int(m.group(2)))
+                if m.group(1) == "nack" and m.group(4) != "icmp" and int(m.group(3)) in self.open:
+                    self.open[int(m.group(3))].pop(int(m.group(5)), None)
+        if f[0] in ("a", "r", "b", "p") and int(f[1]) in self.open:
+            self.open[int(f[1])].pop(int(f[2]), None)
+        elif f[0] == "o" and int(f[1]) in self.open:
+            s = int(f[1])
+            for mid in [m for m in self.open[s] if self.tok.get((s, m)) == int(f[3])]:
+                del self.open[s][mid]
+        elif f[0] == "f" and int(f[1]) in self.open:
+            self.open[int(f[1])].clear()
+        for (tm, s, mid) in self.pend:
+            if tm <= self.now and s in self.open:
+                self.open[s].pop(mid, None)
+        self.pend = [a for a in self.pend if a[0] > self.now]
+        for s in range(len(self.sess)):
+            if s not in self.skip and len(self.open[s]) > self.sess[s][5]:
+                return ("after `%s`: %d Confirmables of session %d have been sent and are neither acknowledged, reset nor given up "
+                        "(message ids %s: no ACK / RST with their id and no response with their token was delivered, no NACK was "
+                        "reported), NSTART is %d" % (ev, len(self.open[s]), s, sorted(self.open[s]), self.sess[s][5]))
+        return None
+
+
 # ------------------------------------------------------------------ random scenarios
 DELAYS = [0, 1, 7, 50, 100, 400, 999, 1000, 1001, 1999, 2000, 2001, 2999, 3000, 3001, 4000, 6000, 9000, 20000]
 
@@ -368,7 +453,8 @@ def gen_scenario(rng, flavor):
         p = rand_params(rng, big=(flavor == "c06" and rng.random() < 0.03))
         nstart = rng.choice([1, 1, 2, 3, 4]) if flavor == "c08" else rng.choice([1, 2, 4, 20])
         params.append(p + (nstart,))
-        sess.append(sess_word(p, nstart))
+        # the NSTART clauses hold for every datagram transport: a third of C08's sessions are DTLS sessions
+        sess.append(sess_word(p, nstart, 2 if flavor == "c08" and rng.random() < 0.33 else 1))
     nmsg = rng.randint(1, 6) if flavor == "c06" else rng.randint(1, 20)
     near = []
     evs = []
@@ -430,15 +516,19 @@ def gen_scenario_x(rng, flavor=None):
     `i:` ICMP errors while Confirmables are in flight or held, `k:` keepalive (library-generated empty Confirmables
     taking an NSTART slot, answered by RST = "pong", by ACK, or lost) - alone and mixed, with everything gen_scenario()
     does around them.  Message ids stay clear of the ids the library gives its pings (1, 2, …)."""
-    flavor = flavor or rng.choice(["tok", "tok", "icmp", "ka", "ka", "mix"])
-    tokf, icmpf, kaf = flavor in ("tok", "mix"), flavor in ("icmp", "mix"), flavor in ("ka", "mix")
+    flavor = flavor or rng.choice(["tok", "tok", "icmp", "ka", "ka", "mix", "pig", "pig", "pigmix"])
+    tokf, icmpf, kaf = flavor in ("tok", "mix", "pig", "pigmix"), flavor in ("icmp", "mix", "pigmix"), flavor in ("ka", "mix", "pigmix")
+    # piggy-backed responses (ACKs carrying a response and the request's token): as fates p / P (the second copy is the
+    # network's duplicate, arriving while LATER messages - possibly with the same token - are in flight) and as events
+    # p:S:MID:TOK for ids that are in flight, already concluded, given up, held or nobody's
+    pigf = flavor in ("pig", "pigmix")
     ns = rng.choice([1, 1, 2, 2, 3])
     params = []
     for i in range(ns):
         p = rand_params(rng)
         nstart = rng.choice([1, 2, 2, 3, 4]) if tokf and not kaf else rng.choice([1, 1, 2, 3, 4])
         params.append(p + (nstart,))
-    sess = [sess_word(p[:5], p[5]) for p in params]
+    sess = [sess_word(p[:5], p[5], 2 if rng.random() < 0.33 else 1) for p in params]
     # keepalive no longer than the shortest ACK_TIMEOUT: the wait returned after a ping is the ping timeout, the ping's own
     # retransmission deadline is not looked at (observation for C06, design/C08.md)
     K = rng.randint(1, min(p[0] for p in params)) if kaf else 0
@@ -446,6 +536,7 @@ def gen_scenario_x(rng, flavor=None):
     pool = [rng.choice([0, 7, 300, 65535, rng.randrange(65536)]) for _ in range(rng.choice([1, 1, 2, 3]))]
     mids = [rng.choice([100, 30000, 65000]) for _ in range(ns)]
     near, evs, sent = [], [], []
+    toks_of = {}
     with_hold = rng.random() < 0.2
     with_fail = rng.random() < 0.15
     ka_on = False
@@ -463,10 +554,13 @@ def gen_scenario_x(rng, flavor=None):
         con = rng.random() < 0.8
         r = rng.choice([0, 255, 128, rng.randrange(256)])
         if tokf and rng.random() < 0.7:
-            evs.append("S:%d:%s:%d:%d:%d" % (s, "c" if con else "n", mid, r, rng.choice(pool)))
+            tk = rng.choice(pool)
+            evs.append("S:%d:%s:%d:%d:%d" % (s, "c" if con else "n", mid, r, tk))
         else:
+            tk = mid
             evs.append("s:%d:%s:%d:%d" % (s, "c" if con else "n", mid, r))
         sent.append((s, mid))
+        toks_of[(s, mid)] = tk
         p = params[s]
         T = py_calc_timeout(p[0], p[1], p[2], p[3], r)
         for j in range(min(p[4], 3) + 1):
@@ -474,6 +568,14 @@ def gen_scenario_x(rng, flavor=None):
         if kaf:
             near += [K * 1000 - 1, K * 1000, K * 1000 + 1, K * 1000 - 255 + r]
         c = rng.random()
+        if pigf and rng.random() < 0.35:
+            # a piggy-backed response for a message of this line (usually an EARLIER one: its duplicate / a late copy) with
+            # that message's token, a pool token or nobody's; now and then twice in a row
+            s2, m2 = rng.choice(sent[:-1] or sent) if rng.random() < 0.7 else rng.choice(sent)
+            tk2 = toks_of[(s2, m2)] if rng.random() < 0.8 else rng.choice(pool + [rng.randrange(65536)])
+            evs.append("p:%d:%d:%d" % (s2, m2 if rng.random() < 0.9 else rng.randrange(65536), tk2))
+            if rng.random() < 0.3:
+                evs.append(evs[-1])
         if c < 0.22:
             evs.append("t:%d" % rng.choice(DELAYS[:12] + near[-8:]))
         elif c < 0.34:
@@ -514,6 +616,9 @@ def gen_scenario_x(rng, flavor=None):
         f = gen_fate(rng, near)
         if kaf and rng.random() < 0.3:
             f = "r%d" % rng.choice([0, 1, 50, 400, K * 1000 - 1, K * 1000, K * 1000 + 1])      # the pong
+        elif pigf and rng.random() < 0.5:
+            d1 = rng.choice([0, 0, 1, 50, 400] + near[-4:])
+            f = "p%d" % d1 if rng.random() < 0.4 else "P%d+%d" % (d1, d1 + rng.choice([0, 1, 7, 50, 400, 1000, 3000, 20000] + near[-4:]))
         fates.append(f)
     # with keepalive on the library never falls silent: bounded run
     evs.append("g:%d" % rng.choice([10, 25, 40]) if kaf else "g:3000")
